@@ -21,13 +21,15 @@ EXHAUSTIVE = {"quick": False, "thorough": False}
 MANIFEST = {
     "text": ("Proof (partial): Lean model of the default cascade (caller instance pushed down, wrapper defaults, field "
              "default / factory), argparse's string-default conversion, postprocess and bottom-up instantiation with the "
-             "Optional rule; theorem by mutual induction over the class tree, any depth and width: for trees whose leaves are "
-             "stable under conversion+postprocess and without the excluded Optional-with-factory members, the empty parse "
-             "equals the constructor's own result, and with a caller instance it equals that instance; witnesses keep the "
-             "two known defects visible (Optional member with default_factory comes back None; a Union[float,str] default "
-             "'0' comes back 0.0). The model is configuration-free (option spelling cannot matter for an empty argv); that "
-             "the real parser agrees under all 72 configurations and both APIs is what the correspondence and the oracle "
-             "check on every run."),
+             "Optional rule (an Optional member is None only when its own default is None, since fix 14a7541); theorems by "
+             "mutual induction over the class tree, any depth and width: for trees whose leaves are stable under "
+             "conversion+postprocess the empty parse equals the constructor's own result (c01_no_caller, "
+             "c01_member_factory), and with a caller instance it equals that instance (c01_caller_default). The one named "
+             "gap: leaf stability is a hypothesis, and it is false for a Union[float,str] default '0', which argparse "
+             "converts to 0.0 (witness theorem c01_union_default_witness, open finding C01-union-str-default-converted); "
+             "plain non-string leaves are proved stable. The model is configuration-free (option spelling cannot matter "
+             "for an empty argv); that the real parser agrees under all 72 configurations and both APIs is what the "
+             "correspondence and the oracle check on every run."),
     "note": ("Trusted: Lean kernel + standard axioms; harness. Modelled not verified: field_wrapper.py:711-821, "
              "dataclass_wrapper.py:94-179,256-315, parsing.py:794-991,1135-1161. ALWAYS_MERGE with a reused class is outside "
              "this model (merged defaults, C11): those cases are run on the real code and judged by the oracle only."),
